@@ -123,6 +123,29 @@ class Model:
 
     # ------------------------------------------------------------------
     def _load(self):
+        from . import normalise
+        parsed = self._parse_all()
+        self._normalise(parsed, frozenset())
+        lost = [k for k in self.aliases.resigned
+                if k not in normalise.function_table(
+                    {n: v[2] for n, v in parsed.items()})]
+        if lost:
+            # a function whose signature changed was taken apart but its
+            # pinned form could not be put back: better to keep it whole,
+            # under its own name, and let the rules look at it as it is
+            parsed = self._parse_all()
+            self._normalise(parsed, frozenset(lost))
+        for name, (path, src, tree) in parsed.items():
+            for n in ast.walk(tree):
+                for c in ast.iter_child_nodes(n):
+                    c._parent = n
+            m = ModuleInfo(name, path, src, tree)
+            self.modules[name] = m
+            self._index_module(m)
+        for c in self.classes.values():
+            c.bases = [self._base_name(c, b) for b in c.base_exprs]
+
+    def _parse_all(self):
         parsed = {}
         for fn in sorted(os.listdir(self.src_dir)):
             if not fn.endswith('.py'):
@@ -139,6 +162,9 @@ class Model:
             for n in ast.walk(tree):
                 n._file = rel
             parsed[name] = (path, src, tree)
+        return parsed
+
+    def _normalise(self, parsed, keep_whole):
         # helpers the pinned tree does not know are inlined (normalise.py)
         from . import normalise
         # renamed / moved functions and renamed attributes are mapped back
@@ -147,6 +173,10 @@ class Model:
         # renamed parameters of non-public functions get their pinned names
         self.aliases.params = normalise.canon_params(
             {k: v[2] for k, v in parsed.items()}, self.aliases)
+        # non-public functions whose signature changed are treated as new
+        # helpers (inlined below, the pinned body looked for afterwards)
+        self.aliases.resigned = normalise.demote_changed(
+            {k: v[2] for k, v in parsed.items()}, self.aliases, keep_whole)
         # pinned helpers that were inlined into their callers are put back
         self.aliases.restored = normalise.outline_back(
             {k: v[2] for k, v in parsed.items()}, self.aliases)
@@ -162,15 +192,15 @@ class Model:
                                    self.aliases)
         self.norm.unrolled = normalise.unroll_callable_loops(
             {k: v[2] for k, v in parsed.items()})
-        for name, (path, src, tree) in parsed.items():
-            for n in ast.walk(tree):
-                for c in ast.iter_child_nodes(n):
-                    c._parent = n
-            m = ModuleInfo(name, path, src, tree)
-            self.modules[name] = m
-            self._index_module(m)
-        for c in self.classes.values():
-            c.bases = [self._base_name(c, b) for b in c.base_exprs]
+        if self.norm.unrolled:
+            # unrolling a loop over a table of functions turns indirect
+            # calls into direct ones: helpers among them are inlined now
+            n2 = normalise.Normaliser(
+                {k: v[2] for k, v in parsed.items()},
+                normalise.known_functions()).run()
+            self.norm.inlined = list(self.norm.inlined) + list(n2.inlined)
+            for q, h in n2.helpers.items():
+                self.norm.helpers.setdefault(q, h)
 
     def _base_name(self, c, b):
         if isinstance(b, ast.Name):
@@ -417,6 +447,19 @@ class Model:
             return [self.fold(x, module, cls, env) for x in e.elts]
         if isinstance(e, ast.Set):
             return frozenset(self.fold(x, module, cls, env) for x in e.elts)
+        if isinstance(e, ast.Dict):
+            # small literal tables with constant keys only (the transition
+            # tables, keyed by tuples of enum members, are read by fsm.py
+            # and stay symbolic)
+            if any(not isinstance(k, ast.Constant) for k in e.keys) or \
+                    len(e.keys) > 16:
+                raise NotConst
+            try:
+                return {self.fold(k, module, cls, env):
+                        self.fold(v, module, cls, env)
+                        for k, v in zip(e.keys, e.values)}
+            except TypeError:
+                raise NotConst
         if isinstance(e, ast.UnaryOp):
             v = self.fold(e.operand, module, cls, env)
             if isinstance(e.op, ast.USub):
